@@ -458,6 +458,9 @@ fn apply_inner(p: &Prog, cands: &[Cand], m: &mut Model, a: &Action, k_idx: usize
                         if diff != 0 {
                             f.push(Finding { sig: format!("{prop}:detach:code-patches-left"), detail: format!("[{}] {}: {} patched bytes remain: {}", p.name(), hist(k), diff, pd["text_diff"]) });
                         }
+                        if pd["foreign_text_diff"].as_array().map(|a| !a.is_empty()).unwrap_or(false) {
+                            f.push(Finding { sig: format!("{prop}:detach:code-patches-left-in-another-object"), detail: format!("[{}] {}: the released process still carries patches outside the executable: {}", p.name(), hist(k), pd["foreign_text_diff"]) });
+                        }
                         if pd["dr7"].as_u64().map(|d| d & 0xff != 0).unwrap_or(false) {
                             f.push(Finding { sig: format!("{prop}:detach:hardware-breakpoints-left"), detail: format!("[{}] {}: DR7 = {:#x}", p.name(), hist(k), pd["dr7"].as_u64().unwrap_or(0)) });
                         }
@@ -759,6 +762,26 @@ fn check_step(p: &Prog, m: &Model, a: &Action, i: usize, o: &Value, res: &Value,
     let user_bps = m.addr_set();
     // the step may legitimately be cut short by a user breakpoint reached before the bound
     if !ok {
+        // a source-level step from main whose execution leaves main before any further statement of
+        // main: the stop would lie in main's caller (`_start`, no debug information): unspecified
+        let leaves_main_first = d0 <= 1 && matches!(a, Action::Next | Action::Step) && {
+            let n = t.steps.len();
+            let mut first = None;
+            for j in i + 1..n {
+                if p.depth(j) < d0 {
+                    first = Some(true);
+                    break;
+                }
+                if p.depth(j) == d0 && p.is_stmt(t.steps[j].pc) && p.line_at(t.steps[j].pc) != l0 && p.line_at(t.steps[j].pc).is_some() {
+                    first = Some(false);
+                    break;
+                }
+            }
+            first == Some(true)
+        };
+        if leaves_main_first {
+            return;
+        }
         if m.exited {
             // legal iff the program really ends before any legal stop: checked via bounds below
         } else {
@@ -778,8 +801,16 @@ fn check_step(p: &Prog, m: &Model, a: &Action, i: usize, o: &Value, res: &Value,
         for j in i + 1..n {
             let dj = p.depth(j);
             if dj < d0 {
-                // returned: first statement boundary in the caller
-                return (j..n).find(|&q| p.depth(q) < d0 && p.is_stmt(t.steps[q].pc) || p.depth(q) + 1 < d0);
+                // returned: first statement boundary in the caller.  The return address lies in the
+                // middle of the statement that made the call; a further is_stmt row of that same line
+                // (the rest of `a += f()`) is an allowed stop, not a required one: "right after the
+                // return" is read at source level, the first statement that starts after the call
+                let ret_line = p.line_at(t.steps[j].pc);
+                let ret_file = p.file_at(t.steps[j].pc);
+                return (j..n).find(|&q| {
+                    let pc = t.steps[q].pc;
+                    p.depth(q) < d0 && p.is_stmt(pc) && !(ret_line.is_some() && p.depth(q) == dj && p.stack(q) == p.stack(j) && p.line_at(pc) == ret_line && p.file_at(pc) == ret_file) || p.depth(q) + 1 < d0
+                });
             }
             // rows of another file (code inlined from a library) are neither required nor
             // forbidden stops: only lines of the function's own file count
@@ -832,7 +863,10 @@ fn check_step(p: &Prog, m: &Model, a: &Action, i: usize, o: &Value, res: &Value,
             let want = (i + 1..n).find(|&j| p.depth(j) < d0);
             let cut = want.and_then(|w| first_bp_after(w.saturating_sub(1)));
             if Some(k) != want && Some(k) != cut {
-                f.push(Finding { sig: format!("{prop}:finish:wrong-stop"), detail: format!("[{}] {hist}: finish from index {i} (depth {d0}) stopped at index {k} (depth {}, pc {pc_k:#x}); the function returns at index {want:?}", p.name(), p.depth(k)) });
+                // the temporary breakpoint at the return address is also hit when a deeper activation
+                // of the same function returns into the one being finished
+                let own_return_address = want.map(|w| t.steps[w].pc == pc_k).unwrap_or(false) && p.depth(k) >= d0;
+                f.push(Finding { sig: format!("{prop}:finish:{}", if own_return_address { "stopped-when-a-deeper-activation-returned:recursive" } else { "wrong-stop" }), detail: format!("[{}] {hist}: finish from index {i} (depth {d0}) stopped at index {k} (depth {}, pc {pc_k:#x}); the function returns at index {want:?}", p.name(), p.depth(k)) });
             }
         }
         Action::Next | Action::Step => {
@@ -845,6 +879,16 @@ fn check_step(p: &Prog, m: &Model, a: &Action, i: usize, o: &Value, res: &Value,
                 f.push(Finding { sig: format!("{prop}:{name}:stop-not-at-statement-boundary"), detail: format!("[{}] {hist}: stopped at pc {pc_k:#x} (index {k}, line {:?}) which is not the address of an is_stmt row", p.name(), p.line_at(pc_k)) });
             }
             let dk = p.depth(k);
+            // an inlined callee is a callee: `next` may end inside an inlined body only if it
+            // started inside that same body
+            if matches!(a, Action::Next) && dk == d0 && same_activation(k) {
+                let start = p.dref.inlined_containing(t.steps[i].pc.wrapping_sub(p.base));
+                let entered: Vec<(u64, u64)> = p.dref.inlined_containing(pc_k.wrapping_sub(p.base)).into_iter().filter(|r| !start.contains(r)).collect();
+                let own_file = p.file_at(pc_k).map(|f| f.ends_with(&p.built.program.src_file)).unwrap_or(false);
+                if !entered.is_empty() && own_file {
+                    f.push(Finding { sig: format!("{prop}:next:stopped-inside-inlined-callee"), detail: format!("[{}] {hist}: next from pc {:#x} (line {l0:?}) stopped at pc {pc_k:#x} (line {:?}) inside the inlined body {:x?} that the step did not start in", p.name(), t.steps[i].pc, p.line_at(pc_k), entered) });
+                }
+            }
             if matches!(a, Action::Next) && dk > d0 {
                 let rec = p.stack(k).last().map(|fr| fr.entry) == p.stack(i).last().map(|fr| fr.entry);
                 f.push(Finding { sig: format!("{prop}:next:stopped-inside-callee{}", if rec { ":recursive" } else { "" }), detail: format!("[{}] {hist}: next from depth {d0} stopped at depth {dk} (pc {pc_k:#x}, line {:?})", p.name(), p.line_at(pc_k)) });
